@@ -575,7 +575,7 @@ impl<'a> FnWeaver<'a> {
         self.walk_block(block, &vec![], &vec![], pre, true);
         // all binds must have been found
         for b in self.c.binds.iter() {
-            if !self.binds.contains_key(&b.var) && !(b.optional && self.saw_plain_lend) {
+            if !self.binds.contains_key(&b.var) && !(b.optional && self.saw_plain_lend) && !b.soft {
                 fatal(&format!("{}: lost anchor: bind {} ({} {}) not found in {}", self.func, b.var, b.how, b.pat, self.file));
             }
         }
@@ -625,6 +625,7 @@ impl<'a> FnWeaver<'a> {
                         for (bi, b) in binds.iter().enumerate() {
                             let m = match b.how.as_str() {
                                 "let-init-prefix" => txt.starts_with(&b.pat),
+                                "let-init-exact" => txt == b.pat,
                                 "let-init-suffix" => txt.ends_with(&b.pat),
                                 "let-init-contains" => txt.contains(&b.pat),
                                 _ => fatal(&format!("unknown bind kind {}", b.how)),
@@ -916,6 +917,7 @@ impl<'a> FnWeaver<'a> {
         let txt = squeeze_nt(&self.src[lo(init.expr.span())..hi(init.expr.span())]);
         match b.how.as_str() {
             "let-init-prefix" => txt.starts_with(&b.pat),
+                                "let-init-exact" => txt == b.pat,
             "let-init-suffix" => txt.ends_with(&b.pat),
             "let-init-contains" => txt.contains(&b.pat),
             _ => false,
@@ -1183,8 +1185,29 @@ impl<'x, 'a> PassA<'x, 'a> {
 
 /// `$idx` / `$elem` / `$coll` are bound by the loop shape (X1, or an index `while`); a contract clause that still
 /// carries one after substitution has lost its anchor
-fn unresolved_placeholder(t: &str) -> Option<&'static str> {
-    ["$idx", "$elem", "$coll"].into_iter().find(|p| t.contains(p))
+fn unresolved_placeholder(t: &str) -> Option<String> {
+    if let Some(p) = ["$idx", "$elem", "$coll"].into_iter().find(|p| t.contains(p)) {
+        return Some(p.to_string());
+    }
+    // a soft bind (`bind~`) that found no local leaves its `$name` in the text
+    let b = t.as_bytes();
+    let mut i = 0;
+    while i + 1 < b.len() {
+        if b[i] == b'$' && (b[i + 1] as char).is_ascii_lowercase() {
+            let mut j = i + 1;
+            while j < b.len() && ((b[j] as char).is_ascii_alphanumeric() || b[j] == b'_') {
+                j += 1;
+            }
+            let name = &t[i..j];
+            if !matches!(name, "$ret" | "$exitval" | "$this") && !name[1..].starts_with("guard") {
+                return Some(name.to_string());
+            }
+            i = j;
+        } else {
+            i += 1;
+        }
+    }
+    None
 }
 
 /// `while I < C.len()`: (I, C)
@@ -1281,7 +1304,11 @@ impl<'x, 'a, 'ast> Visit<'ast> for PassA<'x, 'a> {
                 if ptxt == "Box::pin" {
                     self.w.rewrite("X3", lo(p.span()), hi(p.span()), "PinBox::new".into());
                 }
-                if !self.fx_arg(&name, c.args.len(), lo(c.paren_token.span.close()), c.args.trailing_punct()) {
+                let nseg = p.path.segments.len();
+                let qualified = if nseg >= 2 { format!("{}::{}", p.path.segments[nseg - 2].ident, name) } else { name.clone() };
+                if !self.fx_arg(&name, c.args.len(), lo(c.paren_token.span.close()), c.args.trailing_punct())
+                    && !(nseg >= 2 && self.fx_arg(&qualified, c.args.len(), lo(c.paren_token.span.close()), c.args.trailing_punct()))
+                {
                     // fully qualified method call `Type::method(receiver, args..)`: the receiver is written as an argument
                     let n = p.path.segments.len();
                     if n >= 2 && !c.args.is_empty() {
